@@ -107,6 +107,7 @@ def run_e1(tier, seed):
     """Runs (or reuses) the E1 engine; returns the result dictionary."""
     key = file_hash([os.path.join(REPO, "truc", "src"), os.path.join(REPO, "Cargo.lock"),
                      os.path.join(HARNESS, "src", "bin", "bdiff.rs"), os.path.join(HARNESS, "src", "lib.rs"),
+                     os.path.join(HARNESS, "src", "synth.rs"),
                      os.path.join(HARNESS, "Cargo.toml"),
                      os.path.join(COQ, "Model"), os.path.join(COQ, "extract"), corpus_file(),
                      os.path.join(VERIF, "vlib", "e1.py")], extra="%s/%s" % (tier, seed))
